@@ -6,6 +6,10 @@ FACETS = [("CookieTrace.tla", "CookieTrace.cfg", KEEP, None)]
 
 
 def run(ctx):
+    import vlib
+    r = ctx.model_check("Resolver/CookieModel.tla", "CookieModel.cfg", workers=8, timeout=900)
+    if r.violation:
+        raise vlib.MachineryError("CookieModel.tla violates %s" % r.violation)
     if ctx.quick:
         gens = [{"module": "Gen_C17.tla", "cfg": "Gen_C17_quick.cfg", "name": "bfs"}]
     else:
